@@ -43,6 +43,8 @@ class SameA(Predicate):
     q: Item
 
     def __call__(self):
+        if _ARMED[0]:
+            LOG.append(("call", "SameA"))
         return self.p.a == self.q.a
 
 
@@ -52,11 +54,15 @@ class AIs(Predicate):
     k: int
 
     def __call__(self):
+        if _ARMED[0]:
+            LOG.append(("call", "AIs"))
         return self.p.a == self.k
 
 
 @symbolic_function
 def b_is(item, k):
+    if _ARMED[0]:
+        LOG.append(("call", "b_is"))
     return item.b == k
 
 
@@ -74,11 +80,37 @@ class FalsySubItem(SubItem):
         return self.b == 1
 
 
-def make_items(spec, falsy=False):
+_WATCHED = frozenset(("a", "b", "flag", "tags", "vals", "nxt", "m", "b0", "b1", "b2", "b3", "b4", "b5", "k", "tag", "main",
+                      "items", "sub"))
+_ARMED = [False]
+
+
+class _Logging:
+    """logs every read of a data attribute / method while the log is armed (C10)"""
+
+    def __getattribute__(self, name):
+        if name in _WATCHED and _ARMED[0]:
+            LOG.append(("read", object.__getattribute__(self, "name"), name))
+        return object.__getattribute__(self, name)
+
+
+@dataclass(repr=False, eq=False)
+class LoggedItem(_Logging, Item):
+    pass
+
+
+@dataclass(repr=False, eq=False)
+class LoggedSubItem(_Logging, SubItem):
+    pass
+
+
+def make_items(spec, falsy=False, logged=False):
     """spec: list of (name, a, b, subclass?) -> fresh objects with derived flag/tags/vals and a cyclic nxt chain."""
     items = []
     for name, a, b, sub in spec:
         cls = (FalsySubItem if sub else FalsyItem) if falsy else (SubItem if sub else Item)
+        if logged:
+            cls = LoggedSubItem if sub else LoggedItem
         items.append(cls(name=name, a=a, b=b, flag=bool(b), tags=[a] * b + ([a + b] if a else []), vals=[a + 2 * b, 7]))
     for i, it in enumerate(items):
         it.nxt = items[(i + 1) % len(items)] if items else None
